@@ -2,6 +2,7 @@ package vuego
 
 import (
 	"bytes"
+	"fmt"
 	"io/fs"
 	"strings"
 
@@ -115,7 +116,7 @@ func (lp *LessProcessor) compileLessTag(styleNode *html.Node) error {
 	// Parse and compile LESS to CSS
 	parser := dst.NewParser(bytes.NewReader([]byte(lessContent)))
 	if lp.fs != nil {
-		parser = dst.NewParserWithFS(bytes.NewReader([]byte(lessContent)), lp.fs)
+		parser = dst.NewParserWithFS(bytes.NewReader([]byte(lessContent)), &importGuard{FS: lp.fs})
 	}
 
 	file, err := parser.Parse()
@@ -134,6 +135,26 @@ func (lp *LessProcessor) compileLessTag(styleNode *html.Node) error {
 	lp.replaceWithStyleTag(styleNode, css)
 
 	return nil
+}
+
+// maxLessImports bounds the files one style block may import, directly and indirectly.
+const maxLessImports = 256
+
+// importGuard counts the files opened while one style block is compiled. The LESS parser
+// follows @import recursively: a file that imports itself, directly or through others, would
+// recurse until the stack is exhausted and the process dies. Past the limit every open fails.
+type importGuard struct {
+	fs.FS
+	opens int
+}
+
+// Open implements fs.FS.
+func (g *importGuard) Open(name string) (fs.File, error) {
+	g.opens++
+	if g.opens > maxLessImports {
+		return nil, &fs.PathError{Op: "open", Path: name, Err: fmt.Errorf("more than %d files imported by one style block (import cycle?)", maxLessImports)}
+	}
+	return g.FS.Open(name)
 }
 
 // replaceWithStyleTag converts a style tag to a style tag with compiled CSS.
